@@ -36,6 +36,13 @@ type namedStrCustom string
 
 func (namedStrCustom) EventTypeName() string { return "c15.named-string" }
 
+// marked writes a schema marker that its struct does not declare (read back, it is ignored).
+type marked struct{ ID int }
+
+func (m marked) MarshalJSON() ([]byte, error) {
+	return json.Marshal(map[string]int{"ID": m.ID, "schema": 2})
+}
+
 type upTo struct{ ID int }
 type upFrom struct{ ID int }
 type upFrom0 struct{ ID int }
@@ -279,6 +286,8 @@ func TestC15(t *testing.T) {
 	shapeCase(c, "*state.ControlMessage", func(i int) *state.ControlMessage { return state.Reset(strconv.Itoa(i)) }, func(e *state.ControlMessage) int { n, _ := strconv.Atoi(e.Headers.Offset); return n }, true)
 	shapeCase(c, "named string", func(i int) namedStr { return namedStr(strconv.Itoa(i)) }, func(e namedStr) int { n, _ := strconv.Atoi(string(e)); return n }, false)
 	shapeCase(c, "named string with TypeNamer", func(i int) namedStrCustom { return namedStrCustom(strconv.Itoa(i)) }, func(e namedStrCustom) int { n, _ := strconv.Atoi(string(e)); return n }, true)
+	shapeCase(c, "struct whose MarshalJSON adds an undeclared key", func(i int) marked { return marked{i} }, func(e marked) int { return e.ID }, false)
+	shapeCase(c, "pointer to a struct whose MarshalJSON adds an undeclared key", func(i int) *marked { return &marked{i} }, func(e *marked) int { return e.ID }, false)
 	crossShape(c)
 	sameName(c)
 	run.Sample(map[string]any{"shape": "*state.ChangeMessage", "event_type_name": ebu.EventType(&state.ChangeMessage{}), "go_type": "*state.ChangeMessage", "apis": []string{"persist-name", "replay-eventtype-compare", "subscribe-replay-phase", "subscribe-live-phase", "upcast-as-source", "upcast-as-target", "upcast-target-into-subscription"}})
